@@ -38,6 +38,21 @@ type Prep struct {
 	Canon    string
 	Msg      string
 	Panic    string
+	At       string // goProbe function on top of the panicking stack
+}
+
+// panicSite extracts the innermost goProbe function from a stack dump.
+func panicSite(stack string) string {
+	for _, l := range strings.Split(stack, "\n") {
+		if i := strings.Index(l, "github.com/els0r/goProbe/v4/"); i == 0 {
+			l = strings.TrimPrefix(l, "github.com/els0r/goProbe/v4/")
+			if j := strings.LastIndex(l, "("); j > 0 {
+				l = l[:j]
+			}
+			return l
+		}
+	}
+	return ""
 }
 
 // PrepareOnce prepares a query whose only questionable argument is the condition.
@@ -65,6 +80,9 @@ func PrepareOnce(text string) (p Prep) {
 			p.Canon = stmt.Condition
 		}
 	})
+	if p.Panic != "" {
+		p.At = panicSite(p.Panic)
+	}
 	if len(p.Panic) > 800 {
 		p.Panic = p.Panic[:800]
 	}
@@ -448,7 +466,58 @@ func SynFuzz(seed uint64, n int, in io.Reader, out io.Writer) {
 			}
 		}
 	}()
-	accepted, bad := 0, 0
+	accepted, bad, swept := 0, 0, 0
+	check := func(text, how string) {
+		mu.Lock()
+		current, started = text, time.Now()
+		mu.Unlock()
+		p := PrepareOnce(text)
+		var facts []synFact
+		at := ""
+		switch {
+		case p.Panic != "":
+			facts = append(facts, synFact{Kind: "panic", Msg: p.Panic})
+			at = p.At
+		case p.Accepted && p.Canon != "":
+			accepted++
+			p2 := PrepareOnce(p.Canon)
+			switch {
+			case p2.Panic != "":
+				facts = append(facts, synFact{Kind: "panic", Msg: "preparing the canonical form: " + p2.Panic})
+				at = p2.At
+			case !p2.Accepted:
+				facts = append(facts, synFact{Kind: "canon-rejected", Msg: p.Canon + " :: " + p2.Msg})
+			case p2.Canon != p.Canon:
+				facts = append(facts, synFact{Kind: "canon-not-fixed", Msg: p.Canon + " -> " + p2.Canon})
+			}
+		}
+		mu.Lock()
+		current = ""
+		mu.Unlock()
+		if len(facts) > 0 {
+			bad++
+			o.Emit(map[string]any{"ok": false, "part": "fuzz", "how": how, "at": at, "text": text, "facts": facts, "canons": []string{p.Canon}})
+		}
+	}
+	// deterministic dictionary sweep: every number of every seed replaced by boundary values
+	dict := []string{"-1", "-16", "0", "1", "32", "33", "128", "129", "255", "256", "65535", "65536", "4294967296", "99999999999999999999", "08", ""}
+	for _, sd := range seeds {
+		for i := 0; i < len(sd); {
+			if sd[i] < '0' || sd[i] > '9' {
+				i++
+				continue
+			}
+			j := i
+			for j < len(sd) && sd[j] >= '0' && sd[j] <= '9' {
+				j++
+			}
+			for _, d := range dict {
+				check(sd[:i]+d+sd[j:], "number-sweep")
+				swept++
+			}
+			i = j
+		}
+	}
 	for i := 0; i < n; i++ {
 		b := []byte(seeds[rng.Intn(len(seeds))])
 		for m := 1 + rng.Intn(3); m > 0; m-- {
@@ -473,34 +542,7 @@ func SynFuzz(seed uint64, n int, in io.Reader, out io.Writer) {
 				}
 			}
 		}
-		text := string(b)
-		mu.Lock()
-		current, started = text, time.Now()
-		mu.Unlock()
-		p := PrepareOnce(text)
-		var facts []synFact
-		switch {
-		case p.Panic != "":
-			facts = append(facts, synFact{Kind: "panic", Msg: p.Panic})
-		case p.Accepted && p.Canon != "":
-			accepted++
-			p2 := PrepareOnce(p.Canon)
-			switch {
-			case p2.Panic != "":
-				facts = append(facts, synFact{Kind: "panic", Msg: "preparing the canonical form: " + p2.Panic})
-			case !p2.Accepted:
-				facts = append(facts, synFact{Kind: "canon-rejected", Msg: p.Canon + " :: " + p2.Msg})
-			case p2.Canon != p.Canon:
-				facts = append(facts, synFact{Kind: "canon-not-fixed", Msg: p.Canon + " -> " + p2.Canon})
-			}
-		}
-		mu.Lock()
-		current = ""
-		mu.Unlock()
-		if len(facts) > 0 {
-			bad++
-			o.Emit(map[string]any{"ok": false, "part": "fuzz", "text": text, "facts": facts, "canons": []string{p.Canon}})
-		}
+		check(string(b), "byte-mutation")
 	}
-	o.Emit(map[string]any{"summary": true, "mutants": n, "accepted": accepted, "failed": bad})
+	o.Emit(map[string]any{"summary": true, "mutants": n, "swept": swept, "accepted": accepted, "failed": bad})
 }
